@@ -127,6 +127,12 @@ def mpx_prop(pid, theorems, ties, streams, go_cmds, extra=None, wake=False, driv
     d.update(extra or {})
     return d
 
+def c07_script_differs(op, g, l):
+    """C07: the model IS the window rule (the bound and the no-deadlock theorems are about it). A script on
+    which the implementation admits or parks a Send differently from the model - and does so again when
+    it is run alone with patient timing - is a concrete failing input, not only a broken correspondence."""
+    return g.split(" VIOL ", 1)[0] != l
+
 PROPS.update({
     "C03": mpx_prop("C03", ["frames_roundtrip", "frames_cut", "inv_run", "conservation", "delivered_prefix", "complete_after_close"],
                     ev("channel_Send", "channel_SendAndClose", "channel_ReceiveAsync", "conn_send", "conn_receiveMessage", "conn_receiveData",
@@ -148,7 +154,8 @@ PROPS.update({
                     [{"name": "flow", "gen": ["{bin}/mpxflow", "gen", "{seed}", "{tier}", "{stats}"], "go": ["{bin}/mpxflow"], "lean": ["{lean}/flowdriver"],
                       "confirm": {"MPXFLOW_SETTLE_MS": "300", "MPXFLOW_RESETTLE_MS": "4000"}}],
                     ["mpxflow"], wake=True, drivers=["flowdriver"],
-                    extra={"rule": "one evaluation = one flow-control script (window W, sends of given sizes, consumes, close) run against a real client/server pair and on the Lean model; the answer lists for every step whether the Send was admitted immediately or parked and which window update the receiver emitted",
+                    extra={"diff_violation": c07_script_differs,
+                           "rule": "one evaluation = one flow-control script (window W, sends of given sizes, consumes, close) run against a real client/server pair and on the Lean model; the answer lists for every step whether the Send was admitted immediately or parked and which window update the receiver emitted",
                            "assumptions": ["eventual delivery of frames between the two sides (C03) and of wake-ups (WakeProps)"]}),
     "C09": mpx_prop("C09", ["no_partial_frame", "close_wakes_every_waiter", "lateInv_run", "late_open_closed", "late_open_unrepaired"],
                     ev("conn_close", "conn_closeChannels", "channel_free", "state_close", "conn_run", "conn_send", "conn_Channel",
